@@ -42,7 +42,7 @@ def run(ctx):
         "dictionary facts of PS35Dict.tla (Selector*Value attributes etc.); sequences use standard SQ tags",
         "typed DA/TM/DT/IS/DS values (random route) are compared by the text dicom-rs prints for them (to_encoded / "
         "to_multi_str), as the property allows",
-        "default character repertoire only; values valid for their VR; fragments of even length",
+        "default repertoire plus ISO_IR 100 and ISO_IR 192 for PN/LO/SH/LT/ST/UT; values valid for their VR; fragments of even length",
     ]
     vlib.build_harness(["drv_dataset"])
     if P.replay(ctx, "C01"):
